@@ -485,7 +485,8 @@ def _native_int(tier, seed):
             for a, b in itertools.product(vs, vs):
                 cases += 1
                 f = N.check_int(fn, w, a, b)
-                if f and len(fails) < 5:
+                if f and not any(x["fn"] == fn for x in fails):
+                    f["fn"] = fn
                     f["key"] = f"C15/xdsl.interpreters.arith.ArithFunctions.{fn}/post#bits"
                     f["inputs"] = {"lhs": a, "rhs": b}
                     fails.append(f)
@@ -533,7 +534,8 @@ def _native_float(tier, seed):
         for x, y in itertools.product(vals, vals):
             cases += 1
             f = N.check_float(fn, "f64", x, y)
-            if f and len(fails) < 5:
+            if f and not any(x.get("fn") == fn for x in fails):
+                f["fn"] = fn
                 f["key"] = f"C15/xdsl.interpreters.arith.ArithFunctions.{fn}/post#ieee754-binary64"
                 fails.append(f)
     for pred in range(16):
